@@ -28,6 +28,31 @@ def insertMeaning {V : Type} (c : Codec V) (d : Bits) (v : V) : List Py.Act → 
               | .ok d' => ⟨d', .ok ()⟩)
   | _ => none
 
+/-! The proof must not depend on how the source spells the clamping (`if` statement vs conditional expression,
+    `min(a, b)` vs `min(b, a)`, `i * L` vs `L * i` …): it is also checked against harmlessly rewritten sources
+    (Scratch/C14_SrcV*.lean). -/
+
+/-- Decide every `if` whose condition (or its negation) follows from the context by linear arithmetic. -/
+macro "eval_guards" : tactic => `(tactic| simp (disch := omega) only [if_pos, if_neg])
+
+/-- Bool guards → propositions, decide them, flatten the trace. -/
+macro "run_guards" : tactic => `(tactic| (
+  try simp only [Bool.not_eq_true', Bool.not_eq_true, Bool.and_eq_true, Bool.or_eq_true, decide_eq_true_eq,
+    decide_eq_false_iff_not, Bool.not_eq_false', Bool.not_eq_false, Bool.and_eq_false_iff, Bool.or_eq_false_iff,
+    ne_eq, Bool.not_not, Except.bind]
+  try eval_guards
+  try simp only [Except.map, List.nil_append, List.cons_append, List.append_assoc, List.singleton_append]))
+
+theorem insertMeaning_one {V : Type} (c : Codec V) (d : Bits) (v : V) (off : Int) :
+    insertMeaning c d v [⟨"self.data.insert(self._create_element(x), _)", [some off]⟩] =
+      some (match createElement c v with
+            | .error e => ⟨d, .error e⟩
+            | .ok b =>
+              match bInsert d b off with
+              | .error e => ⟨d, .error e⟩
+              | .ok d' => ⟨d', .ok ()⟩) := by
+  simp [insertMeaning]
+
 /-- `Array.insert` as the source has it now = `C14.insert`, for every codec / data / index / value.  The translated
     function never raises by itself (`.ok`); exceptions of `_create_element` / `BitArray.insert` are part of the
     `Step` on both sides. -/
@@ -35,11 +60,10 @@ theorem array_insert_eq {V : Type} (c : Codec V) (d : Bits) (i : Int) (v : V) :
     (Gen.Src.array_insert ((len c d : Nat) : Int) i ((c.w : Nat) : Int)).map (insertMeaning c d v)
       = .ok (some (insert c d i v)) := by
   unfold Gen.Src.array_insert insert
-  by_cases hi : i < 0
-  · simp only [hi, decide_true, if_true, Except.map, insertMeaning]
-    cases createElement c v <;> rfl
-  · simp only [hi, decide_false, Bool.false_eq_true, if_false, Except.map, insertMeaning]
-    cases createElement c v <;> rfl
+  generalize len c d = n
+  generalize c.w = w
+  by_cases hi : i < 0 <;> run_guards <;> simp only [insertMeaning_one]
+  all_goals grind
 
 /-- Non-vacuity: inserting 2 at index −1 of the `uint2` Array `[1, 3]` (data `0111`) gives data `011011`. -/
 example :
